@@ -329,6 +329,7 @@ type vpRunner struct {
 	picks       []*vpPick
 	dead        bool // history ended (panic / stuck)
 	nstuck      int
+	nhist       int
 	lastPicked  int64
 	parkedPicks []*vpPick
 	hdr         vpOp
@@ -852,7 +853,29 @@ func (r *vpRunner) genAndRun(g *vpRng, maxOps int, prop string) {
 	case "C03":
 		h.a[2] = g.pick([]int64{1, 2, 3})
 	}
+	// occasionally a large pool (counters / cursors / sizes beyond a byte)
+	r.nhist++
+	big := r.nhist == 5 || (prop == "C04" || prop == "C03" || prop == "C09") && r.nhist == 40
+	if big {
+		n := g.pick([]int64{256, 257, 300})
+		h.a[0], h.a[1], h.a[7] = n, n, 0
+	}
 	r.start(h)
+	if big {
+		r.apply(vpOp{kind: "R", a: []int64{1, 2}})
+		st := g.pick([]int64{1, 2})
+		for id := 0; id < len(r.cc.scs) && !r.dead; id++ {
+			r.apply(vpOp{kind: "C", a: []int64{int64(id), st}})
+		}
+		for q := 0; q < 6 && !r.dead && len(r.cc.pickers) > 0; q++ {
+			r.apply(vpOp{kind: "P", a: []int64{int64(len(r.cc.pickers) - 1), g.pick([]int64{0, 1, 2}), 1, -1, 0}, keys: []int{1}})
+		}
+		for id := 0; id < len(r.cc.scs) && id < 40 && !r.dead; id++ {
+			r.apply(vpOp{kind: "C", a: []int64{int64(id), g.pick([]int64{2, 3, 1})}})
+		}
+		r.finish()
+		return
+	}
 	nkeys := 1 + g.intn(3)
 	naddr := 1
 	genKeys := func() []int {
